@@ -231,12 +231,16 @@ impl ChainSim {
 		assert!(self.blocks.len() > 1);
 		let block = self.blocks.pop().unwrap();
 		let undo = self.undo.pop().unwrap();
+		// outputs created in this block disappear; outputs it spent come back -- except those that were
+		// themselves created in this block (parent and child mined together)
+		for (op, u, _) in undo.spent {
+			self.spent_by.remove(&op);
+			if !undo.txids.contains(&op.txid) {
+				self.utxo.insert(op, u);
+			}
+		}
 		for op in undo.created {
 			self.utxo.remove(&op);
-		}
-		for (op, u, _) in undo.spent {
-			self.utxo.insert(op, u);
-			self.spent_by.remove(&op);
 		}
 		for txid in undo.txids {
 			if let Some((tx, _)) = self.confirmed.remove(&txid) {
